@@ -26,7 +26,8 @@ PROP = 'C04'
 THEOREMS = ['C04_trace', 'C04_terminates', 'C04_const', 'C04_sum', 'C04_fixed_len', 'C04_edit_distance', 'C04_string',
             'C04_lists', 'C04_lists_trace', 'C04_collection', 'C04_bracket_lo', 'C04_bracket_hi', 'C04_bracket_matcher',
             'C04_matcher', 'C04_multiset', 'C04_docs', 'C04_docs_trace', 'C04_guard_bound_no_null', 'C04_guard_bound_default_lists',
-            'C04_docs_none', 'C04_guard_refuted', 'C04_search', 'C04_plist_root']
+            'C04_docs_none', 'C04_guard_bound_all', 'C04_docs_none_all', 'C04_guard_witness_repaired', 'C04_search',
+            'C04_plist_root']
 MODELS = ['theories/MachineSpec.vo', 'theories/MachineGuardSpec.vo', 'theories/MachineModel.vo', 'theories/MachinePlist.vo']
 HEADER = ('From Coq Require Import ZArith List Bool.\nRequire Import GT.PyBase GT.Data GT.MachineSpec GT.MachineGuardSpec.\n'
           'Import ListNotations.\nOpen Scope Z_scope.\n')
@@ -34,8 +35,8 @@ MODEL_HEADER = 'Require Import GT.MachineModel GT.MachinePlist.\n'
 MODELLED = ['ConstantCostEdit (Match/Replace/Remove/Insert)', 'KeyValuePairEdit (sum combinator; XMLElementEdit, DataClassEdit, '
             'PyObjEdit are the same combinator)', 'repeat_until_tightened', 'FixedLengthSequenceEdit', 'EditDistance',
             'StringEdit', 'EditCollection / FixedKeyDictNodeEdit (children\'s initial upper bounds within cost_upper_bound: proved for '
-            'documents without multisets whose target has no null or whose lists have the default options, C04_docs_none; false '
-            'otherwise, C04_guard_refuted = open finding D41)',
+            'ALL documents without multisets on the current source, C04_docs_none_all - it rests on the capped leaf Match cost, the '
+            'repair of D41; without the cap: target without null or default list options, C04_docs_none)',
             'WeightedBipartiteMatcher (make_distinct and the assignment solver as oracles, all answers)',
             'MultiSetEdit over multisets without repeated elements', 'Edge (pure delegation)',
             'the EditCollection of two Apple plist documents (PLISTNode.edits: [Match, root edit]; C04_plist_root)',
@@ -671,7 +672,7 @@ def gen_items(tier, rng):
         items.append({'a': a, 'b': b, 'opts': [['auto', 'match', 'auto', 'none'][k % 4], ['on', 'off', 'same'][(k // 4) % 3]],
                       'mode': 'passive' if k % 6 == 5 else 'active', 'plist': 'file' if k % 5 == 4 else 'wrap'})
     n_budget = 45 if q else 600
-    for k in range(n_budget):          # around the budget guard of FixedKeyDictNodeEdit (C04_docs_none / open finding D41):
+    for k in range(n_budget):          # around the budget guard of FixedKeyDictNodeEdit: regression stream for the repair of D41 (C04_docs_none_all):
         # fixed-length alignments of short scalars with nulls below a mapping, dictionary strategy none
         n = rng.randint(1, 7)
         src = [rng.choice(['', 'a', 1, 'ab', None, True]) for _ in range(n)]
@@ -701,7 +702,7 @@ def open_findings():
 
 
 # (finding id, Gallina class predicate, stream it applies to: directly built multisets / documents built from JSON)
-KF_CLASSES = [('D36', 'kf_multiset_duplicates_C04', 'ext'), ('D41', 'kf_collection_budget_C04', 'plain')]
+KF_CLASSES = [('D36', 'kf_multiset_duplicates_C04', 'ext')]
 EXT_GUARD = 8          # wall-clock seconds per ext item (D36 can make repeat_until_tightened spin for ever)
 TIMEOUT_EXCS = ('ItemGuardTimeout',)
 
@@ -758,7 +759,9 @@ def evaluate(run, wd, st, items, tag='cases'):
     if st['models_ok']:
         header += MODEL_HEADER
     else:
-        header += 'Record ccase := { cc_case : case; cc_root : bool }.\n'
+        # the models do not build: the cases are still judged by holds_C04 (same constructor arity as MachineModel.ccase)
+        header += ('Record ccase := { cc_case : case; cc_root : bool;\n'
+                   '  cc_orc : list ((list tree * list tree) * (list (list nat) * list (nat * nat))) }.\n')
     terms = [ccase_term(o) for _, o in ok]
     nk = len(KF_CLASSES)
     bad = [[] for _ in range(3 + nk)]
@@ -774,6 +777,15 @@ def evaluate(run, wd, st, items, tag='cases'):
         if st['models_ok']:
             evals += [f'bad_cases {corr_fn}', f'bad_cases (fun c => negb ({mod_fn} c))']
         b, err = eval_sized(wd, tag + suffix, header, [terms[j] for j in idx], evals)
+        tries = 0
+        while err and 'inconsistent assumptions' in err and tries < 2:
+            # another check (or agent) regenerated gen/ and rebuilt part of the .vo files between this run's build and the
+            # evaluation of its case files: rebuild the models and evaluate while holding the build lock
+            tries += 1
+            with common.Lock():
+                common.regen()
+                common.coq_make(MODELS)
+                b, err = eval_sized(wd, f'{tag}{suffix}_r{tries}', header, [terms[j] for j in idx], evals)
         if err:
             run.violation({'kind': 'case-evaluation-failed', 'error': err}, no_input=True)
             return ok, [], [[] for _ in KF_CLASSES], [], [], stats
@@ -823,9 +835,8 @@ def classify(it, o, i, kfs, open_ids):
     """Open known findings a failing case belongs to.  D36 (duplicates collapse in WeightedBipartiteMatcher) is only
     reachable through directly built multisets (ext cases) and shows as (a) a drive that does not terminate or
     (b) a WeightedBipartiteMatcher object whose own trace violates a clause (Gallina kf_matcher_fails).
-    D41 (a FixedKeyDictNodeEdit whose children cost more than its cost_upper_bound invalidates itself) concerns documents
-    built from JSON only: Gallina kf_collection_budget_C04 (no multiset, outside both sufficient conditions of
-    C04_docs_none, and an EditCollection object observed with the bounds (-inf, +inf))."""
+    D41 (a FixedKeyDictNodeEdit whose children cost more than its cost_upper_bound invalidated itself) is repaired in the
+    code: there is no class for it, an EditCollection observed with the bounds (-inf, +inf) is a violation."""
     stream = 'ext' if it.get('ext') else 'plain'
     known = [k for (k, _, where), idx in zip(KF_CLASSES, kfs) if where == stream and i in idx and k in open_ids]
     if stream == 'ext' and not known and 'D36' in open_ids and timed_out(o):
@@ -909,7 +920,7 @@ def check(tier, seed):
                            'under list edits on/off/off-when-same-length; arbitrary documents under the 9 option sets; key/value '
                            'pairs as roots; Apple plist documents (PLISTNode around generated mapping roots with renamed keys and '
                            'changed values, wrapped directly or written with plistlib and loaded by graphtage.plist.build_tree); '
-                           'short-scalar/null lists below FixedKeyDictNodes around the cost_upper_bound guard (D41); '
+                           'short-scalar/null lists below FixedKeyDictNodes around the cost_upper_bound guard (regression stream for the repaired D41); '
                            'IterativeTighteningSearch/PossibleEdits over alternative targets.  Every Bounded object '
                            'created is monitored (classes wrapped from outside), driven to completion and queried; active observer = '
                            'bounds() before and after every outermost tighten_bounds() of every object, passive observer = TreeNode.diff '
